@@ -1,38 +1,51 @@
 ------------------------------ MODULE IBBListen ------------------------------
 (***************************************************************************)
 (* The ACCEPTING side's rendezvous of in-band bytestreams (ibb/listen.go,   *)
-(* handleOpen in ibb/ibb.go): Listener.Accept, Listener.Expect,             *)
-(* Listener.Close against the serve loop that handles the peer's open       *)
-(* requests.  IBB part of C06 (every Expect / Accept / Open call ends       *)
-(* exactly once with its own outcome; a caller that went away or a          *)
-(* rendezvous never stalls the serve loop; no panic) and the first clause   *)
-(* of C15 (Open succeeds only when the peer accepted the session).          *)
+(* handleOpen in ibb/ibb.go): Handler.Listen, Listener.Accept,              *)
+(* Listener.Expect, Listener.Close against the serve loops that handle the  *)
+(* peers' open requests.  IBB part of C06 (every Expect / Accept / Close /  *)
+(* Listen / Open call ends exactly once with its own outcome; a caller that *)
+(* went away, a rendezvous or a Close never stalls a serve loop; no panic)  *)
+(* and the first clause of C15 (Open succeeds only when the peer accepted   *)
+(* the session).                                                            *)
 (* IBB.tla models ONE session id and the byte pipe; this module models the  *)
 (* hand-over of freshly opened sessions (several session ids, several       *)
-(* callers) and nothing of the bytes.  Same style as Receipts.tla and the   *)
-(* join / depart hand-off of MUC.tla.                                       *)
+(* callers, several XMPP sessions that share one ibb.Handler) and nothing   *)
+(* of the bytes.  Same style as Receipts.tla and the join / depart hand-off *)
+(* of MUC.tla.                                                              *)
 (*                                                                         *)
 (* What the documentation of ibb/listen.go promises, and nothing more:      *)
+(*   Listen  (Handler.Listen(session)) creates the listener of that         *)
+(*           session, or returns the one that exists.                       *)
 (*   Accept  waits for the next incoming session; returns an error when the *)
-(*           listener is closed.                                            *)
+(*           listener is closed (also when it was closed before the call).  *)
 (*   Expect  like Accept for one (from, sid); takes precedence over Accept; *)
 (*           a second Expect for the same session cancels the first (which  *)
 (*           returns its context's error) and TAKES OVER.                   *)
 (*   Close   stops listening; pending Accept calls return an error;         *)
-(*           sessions already accepted are not closed.                      *)
+(*           sessions already accepted are not closed.  It may be called    *)
+(*           at any time, any number of times, from any goroutine (it is    *)
+(*           the Close of a net.Listener).                                  *)
 (*   An open request without a listener is refused (not-acceptable).        *)
 (*   An open request nobody is waiting for waits (in the serve loop) for    *)
-(*   the next Accept: that wait is the only legitimate one of the serve     *)
-(*   loop (WaitingForAcceptor).                                             *)
+(*   the next Accept: that wait is the only legitimate one of a serve       *)
+(*   loop (WaitingForAcceptor), and Close ends it.                          *)
 (*                                                                         *)
-(* State: the expectation table `tab` (registered Expect calls, at most one *)
-(* per key, each entry OWNED by the call that stored it), the requests on   *)
-(* the wire `q`, the request the serve loop is handling (`hand`, `hst`).    *)
+(* Lsn: the XMPP sessions of the accepting application.  They share ONE     *)
+(* Handler (one table of listeners); each has its own serve loop, at most   *)
+(* one listener, its own peer.  A listener is identified with its session   *)
+(* (a listener created by Listen AFTER a Close of the same session is a new *)
+(* generation: not modelled, the scenario generators never do that).        *)
+(*                                                                         *)
+(* State: per session the listener `lst`, the requests on the wire `q`, the *)
+(* request its serve loop is handling (`hand`, `hst`); the expectation      *)
+(* table `tab` (registered Expect calls, at most one per listener and key,  *)
+(* each entry OWNED by the call that stored it).                            *)
 (* Steps that cannot be observed from outside (registration, the wake-up of *)
 (* a cancelled call and its removal from the table, the lookup outcome, the *)
-(* hand-over itself) are actions of their own: in recorded runs of the real *)
-(* code they are silent and may happen at any time between the observable   *)
-(* events around them.                                                      *)
+(* hand-over itself, the moment at which Close / Listen take effect) are    *)
+(* actions of their own: in recorded runs of the real code they are silent  *)
+(* and may happen at any time between the observable events around them.    *)
 (*                                                                         *)
 (* Dev: named deviations (all off in the design check and in trace          *)
 (* validation; each must make TLC report a property).                       *)
@@ -42,25 +55,39 @@
 (*                              the call that took over)                    *)
 (*   ExpectLeavesEntry          a cancelled Expect leaves its entry behind  *)
 (*                              (a later open request is handed to nobody)  *)
-(*   CloseClosesQueue           Close closes the accept queue while the     *)
-(*                              serve loop is sending on it                 *)
+(*   CloseClosesQueue           Close closes the accept queue: while the    *)
+(*                              serve loop is sending on it, or a second    *)
+(*                              time                                        *)
 (*   HandOverKeepsEntry         the serve loop does not consume the entry   *)
 (*                              it hands a session to                       *)
+(*   HandlerKeepsTableLocked    the handler of an open request keeps the    *)
+(*                              Handler's table of listeners to itself from *)
+(*                              the lookup until it returns (i.e. also      *)
+(*                              while it waits for an acceptor): Close,     *)
+(*                              Listen and the other serve loops' lookups   *)
+(*                              wait for it                                 *)
+(*   AnyListenerTakes           a waiting session is handed to an Accept    *)
+(*                              call of another session's listener          *)
 (***************************************************************************)
 EXTENDS Integers, Sequences, FiniteSets, TLC
 
 CONSTANTS XCalls,    \* names of Expect calls
           ACalls,    \* names of Accept calls
-          Opens,     \* names of Open calls of the peer
-          Pings,     \* names of unrelated requests of the peer (they only need the serve loop)
+          KCalls,    \* names of Listener.Close calls
+          LCalls,    \* names of Handler.Listen calls
+          Opens,     \* names of Open calls of the peers
+          Pings,     \* names of unrelated requests of the peers (they only need the serve loop)
+          Lsn,       \* the sessions of the accepting application (one Handler)
           Dev
 
 None == "-"
 Calls == XCalls \cup ACalls
+TCalls == KCalls \cup LCalls          \* calls that work on the Handler's table of listeners
 Reqs == Opens \cup Pings
 
 VARIABLES
-  lst,     \* the listener: "none" | "open" | "closing" (Close was called) | "closed" (Close returned)
+  lst,     \* [Lsn -> "none" | "open" | "closed"] the listener of the session
+  lof,     \* [Calls \cup TCalls \cup Reqs -> Lsn \cup {None}] the session whose listener the call is made on / that the request is sent to
   pc,      \* [Calls -> "idle" | "called" | "reg" (Expect: in the table, waiting) | "left" (Expect: woken by
            \*           its context, not returned yet) | "got" (was handed a session) | "done"]
   res,     \* [Calls -> None | "stream" | "ctx" | "closed"]
@@ -68,51 +95,62 @@ VARIABLES
   gotS,    \* [Calls -> the open request whose session the call was handed | None]
   ctxc,    \* calls and requests whose own context was cancelled
   sup,     \* Expect calls cancelled because another Expect took their key over
-  tab,     \* the expectation table: the Expect calls that own an entry (at most one per key)
+  tab,     \* the expectation tables: the Expect calls that own an entry (at most one per listener and key)
+  tpc,     \* [TCalls -> "idle" | "called" | "eff" (took effect, not returned yet) | "done"]
   cst,     \* [Reqs -> "idle" | "called" | "done"] the requesting call at the peer
   ores,    \* [Reqs -> None | "ok" | "err" | "ctx"]
-  q,       \* requests on their way to the accepting side (FIFO)
-  hand,    \* the request the serve loop is handling (None: it is reading)
-  hst,     \* how far: None | "lookup" | "toacc" (nobody expected it at the lookup: it waits for an Accept) |
-           \*          "refused" | "handed" | "dropped" | "other"
+  q,       \* [Lsn -> requests on their way to that session (FIFO)]
+  hand,    \* [Lsn -> the request the serve loop of the session is handling (None: it is reading)]
+  hst,     \* [Lsn -> how far: None | "lookup" | "toacc" (nobody expected it at the lookup: it waits for an Accept) |
+           \*          "refused" | "handed" | "dropped" | "other"]
   rep,     \* [Reqs -> None | "result" | "error"] the reply seen on the wire
   given,   \* [Opens -> Nat] number of calls the session of this request was handed to
   dropped, \* open requests that were accepted while the listener was being closed: nobody gets the session
   viol     \* history: names of violated clauses
 
-vars == <<lst, pc, res, key, gotS, ctxc, sup, tab, cst, ores, q, hand, hst, rep, given, dropped, viol>>
+vars == <<lst, lof, pc, res, key, gotS, ctxc, sup, tab, tpc, cst, ores, q, hand, hst, rep, given, dropped, viol>>
 
-Init ==
-  /\ lst \in {"none", "open"}
+InitRest ==
+  /\ lof = [c \in Calls \cup TCalls \cup Reqs |-> None]
   /\ pc = [c \in Calls |-> "idle"] /\ res = [c \in Calls |-> None]
   /\ key = [c \in XCalls \cup Opens |-> None] /\ gotS = [c \in Calls |-> None]
   /\ ctxc = {} /\ sup = {} /\ tab = {}
+  /\ tpc = [c \in TCalls |-> "idle"]
   /\ cst = [r \in Reqs |-> "idle"] /\ ores = [r \in Reqs |-> None]
-  /\ q = <<>> /\ hand = None /\ hst = None /\ rep = [r \in Reqs |-> None]
+  /\ q = [l \in Lsn |-> <<>>] /\ hand = [l \in Lsn |-> None] /\ hst = [l \in Lsn |-> None]
+  /\ rep = [r \in Reqs |-> None]
   /\ given = [o \in Opens |-> 0] /\ dropped = {} /\ viol = {}
+Init == lst \in [Lsn -> {"none", "open"}] /\ InitRest
 
-Owner(k) == {x \in tab : key[x] = k}
-AcceptWaiting == {a \in ACalls : pc[a] = "called"}
-HKey == IF hand \in Opens THEN key[hand] ELSE None
-(* the only legitimate wait of the serve loop: an open request, a listener, nobody expected the session *)
-(* when the serve loop looked (an Expect that registers later does not get it), nobody is in Accept      *)
-WaitingForAcceptor ==
-  hand \in Opens /\ hst = "toacc" /\ lst = "open" /\ AcceptWaiting = {}
+Owner(l, k) == {x \in tab : lof[x] = l /\ key[x] = k}
+OwnerOf(x) == Owner(lof[x], key[x])
+AcceptWaiting(l) == {a \in ACalls : pc[a] = "called" /\ lof[a] = l}
+HKey(l) == IF hand[l] \in Opens THEN key[hand[l]] ELSE None
+(* the only legitimate wait of a serve loop: an open request, a listener, nobody expected the session *)
+(* when the serve loop looked (an Expect that registers later does not get it), nobody is in Accept    *)
+WaitingForAcceptor(l) ==
+  hand[l] \in Opens /\ hst[l] = "toacc" /\ lst[l] = "open" /\ AcceptWaiting(l) = {}
+
+(* HandlerKeepsTableLocked: a handler past its lookup still holds the table; everybody else who needs  *)
+(* the table (Close, Listen, the lookup of another serve loop) waits until it has returned             *)
+PastLookup(l) == hand[l] \in Opens /\ hst[l] \in {"toacc", "refused", "handed", "dropped"}
+TableFree(me) == "HandlerKeepsTableLocked" \in Dev => \A l \in Lsn \ {me} : ~PastLookup(l)
 
 -----------------------------------------------------------------------------
 (* Expect *)
-ExpectCall(x, k) ==
-  /\ pc[x] = "idle" /\ pc' = [pc EXCEPT ![x] = "called"] /\ key' = [key EXCEPT ![x] = k]
-  /\ UNCHANGED <<lst, res, gotS, ctxc, sup, tab, cst, ores, q, hand, hst, rep, given, dropped, viol>>
+ExpectCall(x, l, k) ==
+  /\ pc[x] = "idle" /\ lst[l] # "none"
+  /\ pc' = [pc EXCEPT ![x] = "called"] /\ key' = [key EXCEPT ![x] = k] /\ lof' = [lof EXCEPT ![x] = l]
+  /\ UNCHANGED <<lst, res, gotS, ctxc, sup, tab, tpc, cst, ores, q, hand, hst, rep, given, dropped, viol>>
 
 (* the call stores its entry; an entry of another call for the same key is replaced and that call cancelled *)
 CanRegister(x) == x \in XCalls /\ pc[x] = "called"
 Register(x) ==
   /\ CanRegister(x)
   /\ pc' = [pc EXCEPT ![x] = "reg"]
-  /\ tab' = (tab \ Owner(key[x])) \cup {x}
-  /\ sup' = sup \cup (Owner(key[x]) \ {x})
-  /\ UNCHANGED <<lst, res, key, gotS, ctxc, cst, ores, q, hand, hst, rep, given, dropped, viol>>
+  /\ tab' = (tab \ OwnerOf(x)) \cup {x}
+  /\ sup' = sup \cup (OwnerOf(x) \ {x})
+  /\ UNCHANGED <<lst, lof, res, key, gotS, ctxc, tpc, cst, ores, q, hand, hst, rep, given, dropped, viol>>
 
 (* a waiting call is woken by its context (cancelled by its caller or by a take-over): it removes ITS OWN entry *)
 CanWake(x) == x \in XCalls /\ pc[x] = "reg" /\ x \in ctxc \cup sup
@@ -120,9 +158,9 @@ Wake(x) ==
   /\ CanWake(x)
   /\ pc' = [pc EXCEPT ![x] = "left"]
   /\ tab' = IF "ExpectLeavesEntry" \in Dev THEN tab
-            ELSE IF "ExpectDeletesForeignEntry" \in Dev THEN tab \ Owner(key[x])
+            ELSE IF "ExpectDeletesForeignEntry" \in Dev THEN tab \ OwnerOf(x)
             ELSE tab \ {x}
-  /\ UNCHANGED <<lst, res, key, gotS, ctxc, sup, cst, ores, q, hand, hst, rep, given, dropped, viol>>
+  /\ UNCHANGED <<lst, lof, res, key, gotS, ctxc, sup, tpc, cst, ores, q, hand, hst, rep, given, dropped, viol>>
 
 (* Expect returns: the session it was handed, or its context's error, or (nothing in the code does *)
 (* that today, the documentation of Accept suggests it) an error because the listener is closed     *)
@@ -130,49 +168,61 @@ ExpectRet(x, out) ==
   /\ x \in XCalls
   /\ CASE out = "stream" -> pc[x] = "got"
        [] out = "ctx"    -> pc[x] = "left"
-       [] out = "closed" -> pc[x] = "reg" /\ lst \in {"closing", "closed"}
+       [] out = "closed" -> pc[x] = "reg" /\ lst[lof[x]] = "closed"
        [] OTHER -> FALSE
   /\ pc' = [pc EXCEPT ![x] = "done"] /\ res' = [res EXCEPT ![x] = out]
   /\ tab' = IF out = "closed" THEN tab \ {x} ELSE tab
-  /\ UNCHANGED <<lst, key, gotS, ctxc, sup, cst, ores, q, hand, hst, rep, given, dropped, viol>>
+  /\ UNCHANGED <<lst, lof, key, gotS, ctxc, sup, tpc, cst, ores, q, hand, hst, rep, given, dropped, viol>>
 
-(* Accept *)
-AcceptCall(a) ==
-  /\ a \in ACalls /\ pc[a] = "idle" /\ lst # "none" /\ pc' = [pc EXCEPT ![a] = "called"]
-  /\ UNCHANGED <<lst, res, key, gotS, ctxc, sup, tab, cst, ores, q, hand, hst, rep, given, dropped, viol>>
+(* Accept (also on a listener that is closed already) *)
+AcceptCall(a, l) ==
+  /\ a \in ACalls /\ pc[a] = "idle" /\ lst[l] # "none"
+  /\ pc' = [pc EXCEPT ![a] = "called"] /\ lof' = [lof EXCEPT ![a] = l]
+  /\ UNCHANGED <<lst, res, key, gotS, ctxc, sup, tab, tpc, cst, ores, q, hand, hst, rep, given, dropped, viol>>
 AcceptRet(a, out) ==
   /\ a \in ACalls
   /\ CASE out = "stream" -> pc[a] = "got"
-       [] out = "closed" -> pc[a] = "called" /\ lst \in {"closing", "closed"}
+       [] out = "closed" -> pc[a] = "called" /\ lst[lof[a]] = "closed"
        [] OTHER -> FALSE
   /\ pc' = [pc EXCEPT ![a] = "done"] /\ res' = [res EXCEPT ![a] = out]
-  /\ UNCHANGED <<lst, key, gotS, ctxc, sup, tab, cst, ores, q, hand, hst, rep, given, dropped, viol>>
+  /\ UNCHANGED <<lst, lof, key, gotS, ctxc, sup, tab, tpc, cst, ores, q, hand, hst, rep, given, dropped, viol>>
 
 (* a caller goes away *)
 Cancel(c) ==
   /\ ctxc' = ctxc \cup {c}
-  /\ UNCHANGED <<lst, pc, res, key, gotS, sup, tab, cst, ores, q, hand, hst, rep, given, dropped, viol>>
+  /\ UNCHANGED <<lst, lof, pc, res, key, gotS, sup, tab, tpc, cst, ores, q, hand, hst, rep, given, dropped, viol>>
 
-(* Listener.Close *)
-CloseCall ==
-  /\ lst = "open" /\ lst' = "closing"
-  /\ viol' = IF "CloseClosesQueue" \in Dev /\ hand \in Opens /\ hst = "toacc"
+(* Listener.Close and Handler.Listen: the call, the moment it takes effect (it needs the Handler's table *)
+(* of listeners for that moment), the return.  A second Close finds the listener closed and changes      *)
+(* nothing; Listen for a session that has a listener changes nothing.                                    *)
+TableCall(c, l) ==
+  /\ c \in TCalls /\ tpc[c] = "idle" /\ (c \in KCalls => lst[l] # "none")
+  /\ tpc' = [tpc EXCEPT ![c] = "called"] /\ lof' = [lof EXCEPT ![c] = l]
+  /\ UNCHANGED <<lst, pc, res, key, gotS, ctxc, sup, tab, cst, ores, q, hand, hst, rep, given, dropped, viol>>
+CanEffect(c) == c \in TCalls /\ tpc[c] = "called" /\ TableFree(None)
+TableEffect(c) ==
+  /\ CanEffect(c)
+  /\ tpc' = [tpc EXCEPT ![c] = "eff"]
+  /\ lst' = [lst EXCEPT ![lof[c]] = IF c \in KCalls THEN "closed" ELSE IF @ = "none" THEN "open" ELSE @]
+  /\ viol' = IF /\ "CloseClosesQueue" \in Dev /\ c \in KCalls
+                /\ \/ lst[lof[c]] = "closed"
+                   \/ hand[lof[c]] \in Opens /\ hst[lof[c]] = "toacc"
                THEN viol \cup {"C06_NoPanic"} ELSE viol
-  /\ UNCHANGED <<pc, res, key, gotS, ctxc, sup, tab, cst, ores, q, hand, hst, rep, given, dropped>>
-CloseRet ==
-  /\ lst = "closing" /\ lst' = "closed"
-  /\ UNCHANGED <<pc, res, key, gotS, ctxc, sup, tab, cst, ores, q, hand, hst, rep, given, dropped, viol>>
+  /\ UNCHANGED <<lof, pc, res, key, gotS, ctxc, sup, tab, cst, ores, q, hand, hst, rep, given, dropped>>
+TableRet(c) ==
+  /\ c \in TCalls /\ tpc[c] = "eff" /\ tpc' = [tpc EXCEPT ![c] = "done"]
+  /\ UNCHANGED <<lst, lof, pc, res, key, gotS, ctxc, sup, tab, cst, ores, q, hand, hst, rep, given, dropped, viol>>
 
 -----------------------------------------------------------------------------
-(* The peer *)
-ReqCall(r, k) ==
-  /\ cst[r] = "idle" /\ cst' = [cst EXCEPT ![r] = "called"]
+(* The peers *)
+ReqCall(r, l, k) ==
+  /\ cst[r] = "idle" /\ cst' = [cst EXCEPT ![r] = "called"] /\ lof' = [lof EXCEPT ![r] = l]
   /\ key' = IF r \in Opens THEN [key EXCEPT ![r] = k] ELSE key
-  /\ UNCHANGED <<lst, pc, res, gotS, ctxc, sup, tab, ores, q, hand, hst, rep, given, dropped, viol>>
+  /\ UNCHANGED <<lst, pc, res, gotS, ctxc, sup, tab, tpc, ores, q, hand, hst, rep, given, dropped, viol>>
 ReqWire(r) ==
-  /\ cst[r] = "called" /\ rep[r] = None /\ hand # r /\ \A i \in 1..Len(q) : q[i] # r
-  /\ q' = Append(q, r)
-  /\ UNCHANGED <<lst, pc, res, key, gotS, ctxc, sup, tab, cst, ores, hand, hst, rep, given, dropped, viol>>
+  /\ cst[r] = "called" /\ rep[r] = None /\ hand[lof[r]] # r /\ \A i \in 1..Len(q[lof[r]]) : q[lof[r]][i] # r
+  /\ q' = [q EXCEPT ![lof[r]] = Append(@, r)]
+  /\ UNCHANGED <<lst, lof, pc, res, key, gotS, ctxc, sup, tab, tpc, cst, ores, hand, hst, rep, given, dropped, viol>>
 (* Open returns success only for a result, the stanza error for an error reply, or its context's error *)
 ReqRet(r, out) ==
   /\ cst[r] = "called"
@@ -181,95 +231,110 @@ ReqRet(r, out) ==
        [] out = "ctx" -> r \in ctxc
        [] OTHER -> FALSE
   /\ cst' = [cst EXCEPT ![r] = "done"] /\ ores' = [ores EXCEPT ![r] = out]
-  /\ UNCHANGED <<lst, pc, res, key, gotS, ctxc, sup, tab, q, hand, hst, rep, given, dropped, viol>>
+  /\ UNCHANGED <<lst, lof, pc, res, key, gotS, ctxc, sup, tab, tpc, q, hand, hst, rep, given, dropped, viol>>
 
 -----------------------------------------------------------------------------
-(* The serve loop of the accepting side *)
+(* The serve loops of the accepting side *)
 Deliver(r) ==
-  /\ hand = None /\ q # <<>> /\ Head(q) = r
-  /\ q' = Tail(q) /\ hand' = r /\ hst' = IF r \in Opens THEN "lookup" ELSE "other"
-  /\ UNCHANGED <<lst, pc, res, key, gotS, ctxc, sup, tab, cst, ores, rep, given, dropped, viol>>
+  LET l == lof[r] IN
+  /\ l \in Lsn /\ hand[l] = None /\ q[l] # <<>> /\ Head(q[l]) = r
+  /\ q' = [q EXCEPT ![l] = Tail(@)] /\ hand' = [hand EXCEPT ![l] = r]
+  /\ hst' = [hst EXCEPT ![l] = IF r \in Opens THEN "lookup" ELSE "other"]
+  /\ UNCHANGED <<lst, lof, pc, res, key, gotS, ctxc, sup, tab, tpc, cst, ores, rep, given, dropped, viol>>
+
+AtLookup(l) == hand[l] \in Opens /\ hst[l] = "lookup" /\ TableFree(l)
 
 (* no listener (any more): the request is refused *)
-CanRefuse == hand \in Opens /\ hst = "lookup" /\ lst # "open"
-Refuse ==
-  /\ CanRefuse /\ hst' = "refused"
-  /\ UNCHANGED <<lst, pc, res, key, gotS, ctxc, sup, tab, cst, ores, q, hand, rep, given, dropped, viol>>
+CanRefuse(l) == AtLookup(l) /\ lst[l] # "open"
+Refuse(l) ==
+  /\ CanRefuse(l) /\ hst' = [hst EXCEPT ![l] = "refused"]
+  /\ UNCHANGED <<lst, lof, pc, res, key, gotS, ctxc, sup, tab, tpc, cst, ores, q, hand, rep, given, dropped, viol>>
 
 (* the session is expected: it goes to the call that owns the entry, and the entry is consumed. *)
 (* The hand-over needs the owner to be still waiting: a call that has left owns nothing.        *)
-CanHandX(x) == hand \in Opens /\ hst = "lookup" /\ lst # "none" /\ x \in Owner(HKey) /\ pc[x] = "reg"
-HandToExpect(x) ==
-  /\ CanHandX(x)
-  /\ pc' = [pc EXCEPT ![x] = "got"] /\ gotS' = [gotS EXCEPT ![x] = hand]
+CanHandX(l, x) == AtLookup(l) /\ lst[l] # "none" /\ x \in Owner(l, HKey(l)) /\ pc[x] = "reg"
+HandToExpect(l, x) ==
+  /\ CanHandX(l, x)
+  /\ pc' = [pc EXCEPT ![x] = "got"] /\ gotS' = [gotS EXCEPT ![x] = hand[l]]
   /\ tab' = IF "HandOverKeepsEntry" \in Dev THEN tab ELSE tab \ {x}
-  /\ given' = [given EXCEPT ![hand] = @ + 1] /\ hst' = "handed"
-  /\ UNCHANGED <<lst, res, key, ctxc, sup, cst, ores, q, hand, rep, dropped, viol>>
+  /\ given' = [given EXCEPT ![hand[l]] = @ + 1] /\ hst' = [hst EXCEPT ![l] = "handed"]
+  /\ UNCHANGED <<lst, lof, res, key, ctxc, sup, tpc, cst, ores, q, hand, rep, dropped, viol>>
 
 (* nobody expects it (Expect takes precedence): it is for Accept.  The serve loop looks ONCE: an Expect *)
 (* that registers while the session waits for an acceptor does not get it.  A waiting, live (not       *)
 (* superseded) Expect call of that key at this moment means that its entry was lost.                   *)
-CanToAcc == hand \in Opens /\ hst = "lookup" /\ lst # "none" /\ Owner(HKey) = {}
-ToAcc ==
-  /\ CanToAcc /\ hst' = "toacc"
-  /\ viol' = IF \E x \in XCalls : pc[x] = "reg" /\ key[x] = HKey /\ x \notin sup
+CanToAcc(l) == AtLookup(l) /\ lst[l] # "none" /\ Owner(l, HKey(l)) = {}
+ToAcc(l) ==
+  /\ CanToAcc(l) /\ hst' = [hst EXCEPT ![l] = "toacc"]
+  /\ viol' = IF \E x \in XCalls : pc[x] = "reg" /\ lof[x] = l /\ key[x] = HKey(l) /\ x \notin sup
                THEN viol \cup {"C06_ExpectGetsItsSession"} ELSE viol
-  /\ UNCHANGED <<lst, pc, res, key, gotS, ctxc, sup, tab, cst, ores, q, hand, rep, given, dropped>>
+  /\ UNCHANGED <<lst, lof, pc, res, key, gotS, ctxc, sup, tab, tpc, cst, ores, q, hand, rep, given, dropped>>
 
-(* ... it goes to a call waiting in Accept *)
-CanHandA(a) == hand \in Opens /\ hst = "toacc" /\ a \in AcceptWaiting
-HandToAccept(a) ==
-  /\ CanHandA(a)
-  /\ pc' = [pc EXCEPT ![a] = "got"] /\ gotS' = [gotS EXCEPT ![a] = hand]
-  /\ given' = [given EXCEPT ![hand] = @ + 1] /\ hst' = "handed"
-  /\ UNCHANGED <<lst, res, key, ctxc, sup, tab, cst, ores, q, hand, rep, dropped, viol>>
+(* ... it goes to a call waiting in Accept on the listener of that session *)
+CanHandA(l, a) ==
+  /\ hand[l] \in Opens /\ hst[l] = "toacc" /\ a \in ACalls /\ pc[a] = "called"
+  /\ (lof[a] = l \/ "AnyListenerTakes" \in Dev)
+HandToAccept(l, a) ==
+  /\ CanHandA(l, a)
+  /\ pc' = [pc EXCEPT ![a] = "got"] /\ gotS' = [gotS EXCEPT ![a] = hand[l]]
+  /\ given' = [given EXCEPT ![hand[l]] = @ + 1] /\ hst' = [hst EXCEPT ![l] = "handed"]
+  /\ UNCHANGED <<lst, lof, res, key, ctxc, sup, tab, tpc, cst, ores, q, hand, rep, dropped, viol>>
 
 (* the listener is closed while the session waits for an acceptor: the serve loop goes on; the request *)
 (* was answered already (the result is written before the hand-over), nobody gets the session          *)
-CanDrop == hand \in Opens /\ hst = "toacc" /\ lst \in {"closing", "closed"} /\ "CloseClosesQueue" \notin Dev
-DropClosed ==
-  /\ CanDrop /\ hst' = "dropped" /\ dropped' = dropped \cup {hand}
-  /\ UNCHANGED <<lst, pc, res, key, gotS, ctxc, sup, tab, cst, ores, q, hand, rep, given, viol>>
+CanDrop(l) == hand[l] \in Opens /\ hst[l] = "toacc" /\ lst[l] = "closed" /\ "CloseClosesQueue" \notin Dev
+DropClosed(l) ==
+  /\ CanDrop(l) /\ hst' = [hst EXCEPT ![l] = "dropped"] /\ dropped' = dropped \cup {hand[l]}
+  /\ UNCHANGED <<lst, lof, pc, res, key, gotS, ctxc, sup, tab, tpc, cst, ores, q, hand, rep, given, viol>>
 
 (* the reply goes out when the handler returns; the serve loop reads on *)
-CanReply == hand # None /\ hst \in {"refused", "handed", "dropped", "other"}
+CanReply(l) == hand[l] # None /\ hst[l] \in {"refused", "handed", "dropped", "other"}
 Reply(r, what) ==
-  /\ hand = r /\ CanReply
-  /\ CASE hst = "refused" -> what = "error"
-       [] hst \in {"handed", "dropped"} -> what = "result"
+  LET l == lof[r] IN
+  /\ l \in Lsn /\ hand[l] = r /\ CanReply(l)
+  /\ CASE hst[l] = "refused" -> what = "error"
+       [] hst[l] \in {"handed", "dropped"} -> what = "result"
        [] OTHER -> what \in {"result", "error"}
-  /\ rep' = [rep EXCEPT ![r] = what] /\ hand' = None /\ hst' = None
-  /\ UNCHANGED <<lst, pc, res, key, gotS, ctxc, sup, tab, cst, ores, q, given, dropped, viol>>
+  /\ rep' = [rep EXCEPT ![r] = what] /\ hand' = [hand EXCEPT ![l] = None] /\ hst' = [hst EXCEPT ![l] = None]
+  /\ UNCHANGED <<lst, lof, pc, res, key, gotS, ctxc, sup, tab, tpc, cst, ores, q, given, dropped, viol>>
 
 -----------------------------------------------------------------------------
 (* When the library cannot move, whoever is still waiting must be waiting for something that only the *)
-(* application or the peer can supply.                                                                *)
+(* application or the peer can supply.  A Close or Listen call never waits for either.                *)
+TablePending == {c \in TCalls : tpc[c] \in {"called", "eff"}}
 StallClauses ==
-  (IF hand # None /\ ~WaitingForAcceptor THEN {"C06_ServeStall"} ELSE {})
+  (IF \E l \in Lsn : hand[l] # None /\ ~WaitingForAcceptor(l) THEN {"C06_ServeStall"} ELSE {})
   \cup (IF \E x \in XCalls : pc[x] \in {"called", "reg", "left"} /\ x \in ctxc \cup sup THEN {"C06_CallReturns"} ELSE {})
+  \cup (IF TablePending # {} THEN {"C06_CloseReturns"} ELSE {})
+  \cup (IF \E a \in ACalls : pc[a] = "called" /\ lst[lof[a]] = "closed" THEN {"C06_AcceptReturns"} ELSE {})
 
 -----------------------------------------------------------------------------
 (* the model's own environment (design check) *)
 CONSTANTS XKey,     \* [XCalls -> keys] the session each Expect call of the model asks for
           OKey,     \* [Opens -> keys]
+          CL,       \* [all names -> Lsn] the session each call / request of the model belongs to
+          LInit,    \* the initial listener states of the model
           MaxEnv
 VARIABLE nenv
 
+(* Listen after (or beside) a Close of the same session makes a new generation of that listener: excluded *)
 MCEnv ==
   /\ nenv < MaxEnv /\ nenv' = nenv + 1
-  /\ \/ \E x \in XCalls : ExpectCall(x, XKey[x])
-     \/ \E a \in ACalls : AcceptCall(a)
+  /\ \/ \E x \in XCalls : ExpectCall(x, CL[x], XKey[x])
+     \/ \E a \in ACalls : AcceptCall(a, CL[a])
      \/ \E c \in XCalls \cup Reqs : c \notin ctxc /\ (IF c \in XCalls THEN pc[c] \in {"called", "reg"} ELSE cst[c] = "called") /\ Cancel(c)
-     \/ \E r \in Reqs : ReqCall(r, IF r \in Opens THEN OKey[r] ELSE None)
-     \/ CloseCall
+     \/ \E r \in Reqs : ReqCall(r, CL[r], IF r \in Opens THEN OKey[r] ELSE None)
+     \/ \E c \in KCalls : (\A d \in LCalls : CL[d] = CL[c] => tpc[d] = "done") /\ TableCall(c, CL[c])
+     \/ \E c \in LCalls : (\A d \in KCalls : CL[d] = CL[c] => tpc[d] = "idle") /\ TableCall(c, CL[c])
 MCLib ==
   /\ UNCHANGED nenv
-  /\ \/ \E x \in XCalls : Register(x) \/ Wake(x) \/ HandToExpect(x) \/ \E out \in {"stream", "ctx"} : ExpectRet(x, out)
-     \/ \E a \in ACalls : HandToAccept(a) \/ \E out \in {"stream", "closed"} : AcceptRet(a, out)
-     \/ CloseRet \/ Refuse \/ ToAcc \/ DropClosed
+  /\ \/ \E x \in XCalls : Register(x) \/ Wake(x) \/ (\E l \in Lsn : HandToExpect(l, x)) \/ \E out \in {"stream", "ctx"} : ExpectRet(x, out)
+     \/ \E a \in ACalls : (\E l \in Lsn : HandToAccept(l, a)) \/ \E out \in {"stream", "closed"} : AcceptRet(a, out)
+     \/ \E c \in TCalls : TableEffect(c) \/ TableRet(c)
+     \/ \E l \in Lsn : Refuse(l) \/ ToAcc(l) \/ DropClosed(l)
      \/ \E r \in Reqs : ReqWire(r) \/ Deliver(r) \/ \E out \in {"ok", "err", "ctx"} : ReqRet(r, out)
      \/ \E r \in Reqs : \E what \in {"result", "error"} : Reply(r, what)
-MCInit == Init /\ nenv = 0
+MCInit == lst \in LInit /\ InitRest /\ nenv = 0
 MCNext == MCEnv \/ MCLib
 MCSpec == MCInit /\ [][MCNext]_<<vars, nenv>>
 
@@ -279,14 +344,17 @@ MCSpec == MCInit /\ [][MCNext]_<<vars, nenv>>
 C06_TakeOver == \A x \in XCalls : (pc[x] = "reg" /\ x \notin sup) => x \in tab
 (* the table holds entries of waiting calls only: a caller that went away leaves nothing behind *)
 C06_NoStaleEntry == \A x \in tab : pc[x] = "reg"
-(* a session is handed to one call, of its own key *)
+(* a session is handed to one call, of its own key, on the listener of the session it was sent to *)
 C06_SessionOnce ==
   /\ \A o \in Opens : given[o] <= 1 /\ Cardinality({c \in Calls : gotS[c] = o}) <= 1
   /\ \A x \in XCalls : gotS[x] # None => key[x] = key[gotS[x]]
+  /\ \A c \in Calls : gotS[c] # None => lof[c] = lof[gotS[c]]
 (* one outcome per call, and its own *)
 C06_Outcome ==
   /\ \A c \in Calls : (res[c] = "stream" => gotS[c] # None) /\ (res[c] = "ctx" => c \in ctxc \cup sup)
   /\ \A r \in Reqs : ores[r] = "ctx" => r \in ctxc
+  /\ \A c \in KCalls : tpc[c] = "done" => lst[lof[c]] = "closed"
+  /\ \A c \in LCalls : tpc[c] = "done" => lst[lof[c]] # "none"
 C06_NoPanic == "C06_NoPanic" \notin viol
 (* a session is never left to Accept while a live Expect call is waiting for exactly that session *)
 C06_ExpectGetsItsSession == "C06_ExpectGetsItsSession" \notin viol
